@@ -64,7 +64,7 @@ def run(ctx):
         tp.append({"search": {k: rng.choice(["timeout", "uncertain", "timeout"]) for k in s}})
     tp.append({"search": {"0:0": "timeout", "0:1": "raise", "0:2": "uncertain"}})
     plans += tp
-    items = [(BATCH, p, 3.0 if any(v == "timeout" for d in p.values() for v in d.values()) else 0) for p in plans]
+    items = [(BATCH, p, 4.0 if any(v == "timeout" for d in p.values() for v in d.values()) else 0) for p in plans]
     recs, _ = pipe.cached("c11_%s_%d" % (ctx.tier, ctx.seed), lambda: mcs.run_many(items, procs=8))
     ref = recs[0]
     ctx.count("plans", "total", len(plans))
